@@ -143,3 +143,22 @@ Proof.
   intros [_ H _ _ _]. vm_compute in H.
   inversion H as [|? ? Hn _]; subst. apply Hn. simpl. tauto.
 Qed.
+
+(* the same over Analysis/Tasks.v: every task with its own optimizer, objective, iteration count, draw stream and its own
+   invariant-preserving hook *)
+From OV Require Import Analysis.Tasks.
+
+Theorem C07_task_histories_general lbs ubs n sp ts x0 rs x' :
+  Forall (fun t => (forall x, Inv n sp x -> Inv n sp (thk t x)) /\ Forall (fun c => shp c = sp) (tlc t)) ts ->
+  Inv n sp x0 ->
+  thist lbs ubs okc_std ts x0 rs x' ->
+  Forall (fun r => Forall (ev_inv n sp) (snd (fst r))) rs /\ Inv n sp x'.
+Proof.
+  intros HQ H0 Ht. induction Ht as [x|t ts x x1 evs1 o1 rest x2 Hrun Ht IH].
+  - split; [constructor|exact H0].
+  - destruct (Forall_inv HQ) as [Hhk Hlc].
+    assert (Hs : Inv n sp (with_loc x (tlc t))).
+    { destruct H0 as [A B C D E]. constructor; simpl; assumption. }
+    destruct (C07_ir_inv (tp t) lbs ubs (tf t) (thk t) (tn t) n sp (tor t) _ x1 evs1 o1 Hhk Hs Hrun) as [H1 H2].
+    destruct (IH (Forall_inv_tail HQ) H1) as [H3 H4]. split; [constructor; [exact H2|exact H3]|exact H4].
+Qed.
